@@ -22,10 +22,13 @@ def main():
     allchecks = [c["property_id"] for c in json.load(open(f"{MUT}/verif/MANIFEST.json"))["checks"]]
     for sid in ids:
         prop = sid.split("-")[0]
+        if not prop.startswith("C"):
+            prop = allchecks[0]
         checks = allchecks if which == "all" else ([prop] if which == "own" else which.split(","))
         checks = [prop] + [c for c in checks if c != prop] if prop in checks else checks
         sh(f"rsync -a --delete --exclude target /repo/ {MUT}/repo/")
-        r = sh(["git", "-C", f"{MUT}/repo", "apply", f"/verif/seeded/{sid}/patch.diff"])
+        pdir = f"/verif/seeded/{sid}" if os.path.isdir(f"/verif/seeded/{sid}") else f"/verif/benign/{sid}"
+        r = sh(["git", "-C", f"{MUT}/repo", "apply", f"{pdir}/patch.diff"])
         if r.returncode != 0:
             print(sid, "PATCH DOES NOT APPLY", r.stdout[-300:]); continue
         out = {"id": sid, "tier": tier, "checks": {}}
